@@ -60,7 +60,7 @@ func (e *Env) instrumentedCopy() (string, map[string]interface{}, error) {
 func checkC20(c *Ctx) {
 	n := 3000
 	if c.Tier == "thorough" {
-		n = 300000
+		n = 60000
 	}
 	c.Rule = "evaluation = one controlled schedule: G tasks (real goroutines, exactly one running at a time), each with its own UE context and messages, run 1..6 library operations (NGAP encode/decode, plain NAS encode/decode, NASEncode/NASDecode with all algorithm pairs, DeriveRESstarAndSetKey, NASEncrypt, NASMacCalculate, the Milenage library functions) in an instrumented copy of the libraries; the seeded scheduler (uniform random with p in {1/4,1/20,1/100}, PCT with d<=3 change points, switch-at-shared-access) decides at every yield point who continues. distinct = distinct (task set, decision list) hash; non-trivial = at least one context switch happened inside a library operation"
 	c.Assume = []string{"yield points are function entries and loop bodies of the instrumented packages plus every statement touching a mutable package-level variable: interleavings finer than that (inside one statement) are not explored",
